@@ -224,7 +224,8 @@ struct Extractor {
         if (const auto *PVD = dyn_cast<ParmVarDecl>(VD))
           J.attribute("pidx", PVD->getFunctionScopeIndex());
       }
-      constValue(J, VD);
+      // a parameter is never a constant, whatever its default argument evaluates to
+      if (!isa<ParmVarDecl>(VD)) constValue(J, VD);
     } else if (const auto *FLD = dyn_cast<FieldDecl>(D)) {
       J.attribute("parent", qname(FLD->getParent()));
       J.attribute("pname", FLD->getParent()->getNameAsString());
